@@ -131,7 +131,7 @@ func raceSummary(out string) string {
 			in = true
 			continue
 		}
-		if in && strings.HasPrefix(strings.TrimSpace(l), "/repo/") {
+		if in && strings.HasPrefix(strings.TrimSpace(l), repoDir+"/") {
 			fr = append(fr, strings.TrimSpace(l))
 			if len(fr) >= 4 {
 				break
